@@ -41,6 +41,7 @@ var Roots = []Root{
 	{"[3]int", t[[3]int]()}, {"[2]string", t[[2]string]()}, {"[2]vt.Leaf", t[[2]vt.Leaf]()}, {"[0]int", t[[0]int]()}, {"[2][]int", t[[2][]int]()}, {"[2]*vt.Leaf", t[[2]*vt.Leaf]()},
 	{"map[string]int", t[map[string]int]()}, {"map[int]string", t[map[int]string]()}, {"map[float64]string", t[map[float64]string]()}, {"map[rune]bool", t[map[rune]bool]()}, {"map[vt.MyStr]vt.Leaf", t[map[vt.MyStr]vt.Leaf]()},
 	{"map[string]*vt.Leaf", t[map[string]*vt.Leaf]()}, {"map[vu.MyID]vt.MyInt", t[map[vu.MyID]vt.MyInt]()}, {"map[string][]string", t[map[string][]string]()}, {"map[string]map[string]int", t[map[string]map[string]int]()},
+	{"vt.K8s", t[vt.K8s]()}, {"*vt.K8s", t[*vt.K8s]()}, {"[]vt.K8s", t[[]vt.K8s]()},
 	{"vt.Emb", t[vt.Emb]()}, {"*vt.Emb", t[*vt.Emb]()}, {"[]vt.Emb", t[[]vt.Emb]()}, {"vt.IDs", t[vt.IDs]()}, {"vt.Dict", t[vt.Dict]()}, {"vt.Grid", t[vt.Grid]()}, {"vt.Named", t[vt.Named]()}, {"map[string]vt.IDs", t[map[string]vt.IDs]()},
 	{"map[bool]vt.Empty", t[map[bool]vt.Empty]()}, {"map[uint8]vu.Pt", t[map[uint8]vu.Pt]()}, {"map[string]vt.Deep2", t[map[string]vt.Deep2]()}, {"map[[2]int]string", t[map[[2]int]string]()}, {"map[vt.MyRune]string", t[map[vt.MyRune]string]()},
 }
